@@ -16,6 +16,7 @@ import (
 	"context"
 	"encoding/json"
 	"fmt"
+	"io"
 	"net/http/httptest"
 	"os"
 	"strings"
@@ -45,11 +46,12 @@ type verifApprovalReq struct {
 }
 
 type verifApprovalRes struct {
-	Verdict  string
-	Status   int
-	Semver   bool
-	Stored   bool
-	Statuses []int
+	Verdict    string
+	Status     int
+	Semver     bool
+	Stored     bool
+	StoredBody string // the object the handler wrote into the bucket, read back
+	Statuses   []int
 }
 
 func verifClassify(err error) string {
@@ -133,8 +135,13 @@ func verifApprovalServe() {
 		handleUpload(cfg, bucket).ServeHTTP(rec, r)
 		res.Status = rec.Code
 		it := bucket.Objects(ctx, "")
-		if _, err := it.Next(); err == nil {
+		if name, err := it.Next(); err == nil {
 			res.Stored = true
+			if rd, err := bucket.Object(name).NewReader(ctx); err == nil {
+				b, _ := io.ReadAll(rd)
+				rd.Close()
+				res.StoredBody = string(b)
+			}
 		}
 		os.RemoveAll(dir + fmt.Sprintf("/b%d", n))
 		b, _ := json.Marshal(res)
